@@ -141,5 +141,13 @@ Marked(seen, marks) == [k \in Caches |-> seen[k] \cup {p[2] : p \in {q \in marks
 \* the complete rule: verdict v and set of Mark* calls `marks` are a correct answer to m in cache state `seen`
 Correct(seen, m, v, marks) == v \in Allowed(seen, m) /\ marks = ExpectedMarks(m, v)
 
+(* Sync committee subnets. A validator may be sampled into the sync committee several times; its "seats" are   *)
+(* all the positions it holds. compute_subnets_for_sync_committee(state, validator) is the set of subcommittees  *)
+(* of ALL its seats (position \div subcommittee size) - not of the first seat only - and the aggregator of a     *)
+(* contribution is in the declared subcommittee iff one of its seats is. The conditions subnet_valid             *)
+(* (sync_committee_{subnet_id}) and aggregator_in_subcommittee (contribution_and_proof) are these predicates.     *)
+SubnetsOfSeats(seats, subSize) == {p \div subSize : p \in seats}
+SubnetValid(seats, subSize, subnet) == subnet \in SubnetsOfSeats(seats, subSize)
+
 EmptySeen == [k \in Caches |-> {}]
 =============================================================================
